@@ -38,7 +38,8 @@ ODD_STRINGS = ['', 'a', 'é', '日本語', '😀', 'a\u0301', 'x y', '"q"', 'bac
 
 
 class ValueGen:
-    def __init__(self, m, rnd, max_depth=5, bool_for_number=False):
+    def __init__(self, m, rnd, max_depth=5, bool_for_number=False, subclass_slots=False):
+        self.subclass_slots = subclass_slots
         self.m = m
         self.rnd = rnd
         self.max_depth = max_depth
@@ -193,6 +194,16 @@ class ValueGen:
             raise Uninhabited(d.name)
         if depth > self.max_depth + 3:
             raise Uninhabited(d.name)
+        if self.subclass_slots and not exact and not d.subtypes and r.random() < 0.12:
+            # an instance of a struct that extends d (plain inheritance) where d is declared: accepted by the
+            # generated classes, serialized with d's fields (comment in bv.Struct.validate_type_only)
+            kids = [x for x in m.defs('struct') if not x.subtypes and not m.is_leaf(x) and
+                    any((a.ns, a.name) == (d.ns, d.name) for a in m.ancestors(x))]
+            if kids:
+                try:
+                    return self.struct_value(r.choice(kids), depth, exact=True)
+                except Uninhabited:
+                    pass
         fields = {}
         for f in m.struct_all_fields(d):
             optional = f.default is not None or m.is_nullable(f.type)
